@@ -423,6 +423,316 @@ theorem version_many_any (s : PyTok.St) (m : Mk.St) (h : TokRel s m) (f : Nat) :
   · rw [← vm_any f (4 * s.rest.length + 15 + 1) [] m hv (by rw [h.2.1]; omega)]
     exact version_many_fuel _ s m h _ (Nat.le_refl _)
 
+
+theorem specifier_any (s : PyTok.St) (m : Mk.St) (h : TokRel s m) (f : Nat) :
+    AgreesR PyVal.str Gen.PySrc._parse_specifier s (Req.parseSpecifier f m) := by
+  rw [agreesR_iff]
+  simp only [Req.parseSpecifier, chk_mk, Gen.PySrc._parse_specifier]
+  cases h0 : chk (.mk .lparen) m with
+  | none =>
+    obtain ⟨s1, e1, r1⟩ := consume_ws h
+    have hv := version_many_any s1 _ r1 f
+    rw [agreesR_iff] at hv
+    tm_simp [open_none h rule_LPAREN h0, e1]
+    cases hvm : Req.versionMany f [] (Req.ws m) with
+    | error e =>
+      simp only [hvm] at hv
+      cases e <;> simp only [bind, Except.bind] <;> tm_simp [hv]
+    | ok v =>
+      obtain ⟨a, m2⟩ := v
+      simp only [hvm] at hv
+      obtain ⟨s2, e2, r2⟩ := hv
+      obtain ⟨s3, e3, r3⟩ := consume_ws r2
+      simp only [bind, Except.bind, pure, Except.pure]
+      tm_simp [e2, e3, close_unopened]
+      exact ⟨_, rfl, r3⟩
+  | some v =>
+    obtain ⟨t0, m0⟩ := v
+    obtain ⟨s1, e1, r1⟩ := consume_ws (adv_rel h h0)
+    have hv := version_many_any s1 _ r1 f
+    rw [agreesR_iff] at hv
+    tm_simp [open_some h rule_LPAREN h0, e1]
+    cases hvm : Req.versionMany f [] (Req.ws m0) with
+    | error e =>
+      simp only [hvm] at hv
+      cases e <;> simp only [bind, Except.bind] <;> tm_simp [hv]
+    | ok v =>
+      obtain ⟨a, m2⟩ := v
+      simp only [hvm] at hv
+      obtain ⟨s2, e2, r2⟩ := hv
+      obtain ⟨s3, e3, r3⟩ := consume_ws r2
+      simp only [bind, Except.bind, pure, Except.pure]
+      cases h4 : chk (.mk .rparen) (Req.ws m2) with
+      | none => tm_simp [e2, e3, close_none _ r3 rule_RPAREN h4]
+      | some w =>
+        obtain ⟨t4, m4⟩ := w
+        tm_simp [e2, e3, close_some _ r3 rule_RPAREN h4]
+        exact ⟨_, rfl, adv_rel r3 h4⟩
+
+
+/-- `AgreesR` on the result of running -/
+def AgreesRun {α} (view : α → PyVal) (x : M (PyVal × PyTok.St)) (r : Req.Res (α × Mk.St)) : Prop :=
+  match r with
+  | .ok (a, m') => ∃ s', x = .ok (view a, s') ∧ TokRel s' m'
+  | .error .fuel => True
+  | .error _ => x = .error "ParserSyntaxError"
+
+theorem agreesR_run {α} (view : α → PyVal) (x : PyTok.TM PyVal) (s : PyTok.St) (r : Req.Res (α × Mk.St)) :
+    AgreesR view x s r ↔ AgreesRun view (x.run s) r := Iff.rfl
+
+theorem agreesRun_ok {α} {view : α → PyVal} {a : α} {m' : Mk.St} {s' : PyTok.St} (h : TokRel s' m') :
+    AgreesRun view (.ok (view a, s')) (.ok (a, m')) := ⟨s', rfl, h⟩
+
+theorem agreesRun_err {α} (view : α → PyVal) (e : Req.Err) :
+    AgreesRun view (.error "ParserSyntaxError") (.error e : Req.Res (α × Mk.St)) := by
+  cases e <;> simp [AgreesRun]
+
+/-- sequencing: a sub-parser that agrees with its model, followed by continuations that agree on related states -/
+theorem agreesRun_bind {α β} {view1 : α → PyVal} {view : β → PyVal} {X : M (PyVal × PyTok.St)}
+    {K : PyVal × PyTok.St → M (PyVal × PyTok.St)} {r1 : Req.Res (α × Mk.St)} {k : α × Mk.St → Req.Res (β × Mk.St)}
+    (hv : AgreesRun view1 X r1)
+    (hk : ∀ a m' s', TokRel s' m' → AgreesRun view (K (view1 a, s')) (k (a, m'))) :
+    AgreesRun view (X >>= K) (r1 >>= k) := by
+  cases r1 with
+  | ok v =>
+    obtain ⟨a, m'⟩ := v
+    obtain ⟨s', e, r⟩ := hv
+    subst e
+    exact hk a m' s' r
+  | error e =>
+    cases e
+    · have : X = .error "ParserSyntaxError" := hv
+      subst this; exact agreesRun_err _ _
+    · have : X = .error "ParserSyntaxError" := hv
+      subst this; exact agreesRun_err _ _
+    · trivial
+
+
+/-! ### `extrasLoop`: fuel -/
+
+theorem el_mono : ∀ (f f' : Nat) (acc : List Str) (m : Mk.St), f ≤ f' → Req.extrasLoop f acc m ≠ .error .fuel →
+    Req.extrasLoop f' acc m = Req.extrasLoop f acc m := by
+  intro f
+  induction f with
+  | zero => intro f' acc m _ h; simp [Req.extrasLoop] at h
+  | succ f ih =>
+    intro f' acc m hle h
+    cases f' with
+    | zero => omega
+    | succ f' =>
+      simp only [Req.extrasLoop] at h ⊢
+      split
+      · rfl
+      · rename_i hp
+        simp only [hp] at h
+        split
+        · rfl
+        · rename_i c m2 h2
+          simp only [h2] at h
+          split
+          · rfl
+          · rename_i t m3 h3
+            simp only [h3] at h
+            exact ih f' _ _ (by omega) (by simpa using h)
+
+theorem el_suff : ∀ (f : Nat) (acc : List Str) (m : Mk.St), m.rest.length < f → Req.extrasLoop f acc m ≠ .error .fuel := by
+  intro f
+  induction f with
+  | zero => intro acc m h; omega
+  | succ f ih =>
+    intro acc m hlt
+    simp only [Req.extrasLoop]
+    split
+    · simp
+    · split
+      · simp
+      · rename_i c m2 h2
+        split
+        · simp
+        · rename_i t m3 h3
+          rw [chk_req] at h2 h3
+          have := ws_len m
+          have := comma_lt h2
+          have := ws_len m2
+          have := chk_len h3
+          exact ih _ _ (by omega)
+
+theorem el_any (f F : Nat) (acc : List Str) (m : Mk.St) (h : Req.extrasLoop f acc m ≠ .error .fuel)
+    (hF : m.rest.length < F) : Req.extrasLoop F acc m = Req.extrasLoop f acc m := by
+  by_cases hle : f ≤ F
+  · exact el_mono f F acc m hle h
+  · exact (el_mono F f acc m (by omega) (el_suff F acc m hF)).symm
+
+/-- the value of `extras` -/
+def strs (l : List Str) : PyVal := .list (l.map .str)
+
+theorem strs_append (l : List Str) (t : Str) : PyVal.list (l.map .str ++ [.str t]) = strs (l ++ [t]) := by
+  simp [strs]
+
+/-- one iteration of the loop of `_parse_extras_list` -/
+def ElStep (body : Nat → PyVal × PyVal × Bool → PyTok.TM (ForInStep (PyVal × PyVal × Bool))) : Prop :=
+  ∀ (i : Nat) (tok : PyVal) (acc : List Str) (s : PyTok.St) (m : Mk.St), TokRel s m →
+    if Req.peekR .identifier (Req.ws m) = true then (body i (tok, strs acc, false)).run s = .error "ParserSyntaxError"
+    else match Req.checkR .comma (Req.ws m) with
+      | none => ∃ s', (body i (tok, strs acc, false)).run s = .ok (.done (tok, strs acc, true), s') ∧ TokRel s' (Req.ws m)
+      | some (_, m2) =>
+        match Req.checkR .identifier (Req.ws m2) with
+        | none => (body i (tok, strs acc, false)).run s = .error "ParserSyntaxError"
+        | some (t, m3) => ∃ s' tok', (body i (tok, strs acc, false)).run s = .ok (.yield (tok', strs (acc ++ [t]), false), s') ∧
+            TokRel s' m3
+
+theorem el_loop (body : Nat → PyVal × PyVal × Bool → PyTok.TM (ForInStep (PyVal × PyVal × Bool))) (hb : ElStep body) :
+    ∀ (f : Nat) (l : List Nat) (tok : PyVal) (acc : List Str) (s : PyTok.St) (m : Mk.St), f ≤ l.length → TokRel s m →
+    match Req.extrasLoop f acc m with
+    | .ok (a, m') => ∃ s' tok', (forIn l (tok, strs acc, false) body).run s = .ok ((tok', strs a, true), s') ∧ TokRel s' m'
+    | .error .fuel => True
+    | .error _ => (forIn l (tok, strs acc, false) body).run s = .error "ParserSyntaxError" := by
+  intro f
+  induction f with
+  | zero => intro l tok acc s m _ _; simp [Req.extrasLoop]
+  | succ f ih =>
+    intro l tok acc s m hl h
+    cases l with
+    | nil => simp at hl
+    | cons x xs =>
+      have hstep := hb x tok acc s m h
+      simp only [Req.extrasLoop, run_forIn_cons]
+      cases hp : Req.peekR .identifier (Req.ws m)
+      case true =>
+        simp only [hp, if_true] at hstep ⊢
+        simp only [hstep, err_bind]
+      case false =>
+        simp only [hp, Bool.false_eq_true, if_false] at hstep ⊢
+        cases h2 : Req.checkR .comma (Req.ws m) with
+        | none =>
+          simp only [h2] at hstep ⊢
+          obtain ⟨s', e, r⟩ := hstep
+          exact ⟨s', tok, by simp only [e, ok_bind], r⟩
+        | some w =>
+          obtain ⟨c, m2⟩ := w
+          simp only [h2] at hstep ⊢
+          cases h3 : Req.checkR .identifier (Req.ws m2) with
+          | none =>
+            simp only [h3] at hstep ⊢
+            simp only [hstep, err_bind]
+          | some u =>
+            obtain ⟨t, m3⟩ := u
+            simp only [h3] at hstep ⊢
+            obtain ⟨s', tok', e, r⟩ := hstep
+            have := ih xs tok' (acc ++ [t]) s' m3 (by simpa using hl) r
+            simp only [e, ok_bind]
+            exact this
+
+theorem el_wrap (body : Nat → PyVal × PyVal × Bool → PyTok.TM (ForInStep (PyVal × PyVal × Bool))) (hb : ElStep body)
+    (K : (PyVal × PyVal × Bool) × PyTok.St → M (PyVal × PyTok.St))
+    (hK : ∀ tok a s, K ((tok, strs a, true), s) = .ok (strs a, s))
+    (f : Nat) (l : List Nat) (tok : PyVal) (acc : List Str) (s : PyTok.St) (m : Mk.St) (hl : f ≤ l.length) (h : TokRel s m) :
+    AgreesRun strs ((forIn l (tok, strs acc, false) body).run s >>= K) (Req.extrasLoop f acc m) := by
+  have key := el_loop body hb f l tok acc s m hl h
+  unfold AgreesRun
+  cases hv : Req.extrasLoop f acc m with
+  | ok v =>
+    obtain ⟨a, m'⟩ := v
+    simp only [hv] at key ⊢
+    obtain ⟨s', tok', e, r⟩ := key
+    exact ⟨s', by simp only [e, ok_bind, hK], r⟩
+  | error e =>
+    cases e <;> simp only [hv] at key ⊢ <;> simp only [key, err_bind]
+
+
+theorem extras_list_fuel (F : Nat) (s : PyTok.St) (m : Mk.St) (h : TokRel s m) (f : Nat) (hf : f ≤ F + 1) :
+    AgreesR strs (Gen.PySrc._parse_extras_list__fuel (F + 1)) s (Req.parseExtrasList f m) := by
+  rw [agreesR_run]
+  simp only [Gen.PySrc._parse_extras_list__fuel, Req.parseExtrasList, chk_req]
+  cases h0 : chk (.req .identifier) m with
+  | none =>
+    tm_simp [check_none h rule_IDENTIFIER h0]
+    exact agreesRun_ok (a := []) h
+  | some v =>
+    obtain ⟨t, m1⟩ := v
+    have r1 := adv_rel h h0
+    tm_simp [check_some h rule_IDENTIFIER h0, List.nil_append]
+    refine el_wrap _ ?step _ ?tail f (List.range (F + 1)) .unbound [t] _ m1 (by simpa using hf) r1
+    case tail =>
+      intro tok a s
+      tm_simp []
+    case step =>
+      intro i tok acc s m h
+      obtain ⟨s1, e1, r1⟩ := consume_ws h
+      simp only [chk_req, peekR_chk]
+      tm_simp [e1, check_peek r1 rule_IDENTIFIER]
+      cases hp : (chk (.req .identifier) (Req.ws m)).isSome
+      case true => tm_simp []
+      case false =>
+        tm_simp []
+        cases h2 : chk (.req .comma) (Req.ws m) with
+        | none =>
+          tm_simp [check_none r1 rule_COMMA h2]
+          exact ⟨_, rfl, r1⟩
+        | some w =>
+          obtain ⟨c, m2⟩ := w
+          obtain ⟨s3, e3, r3⟩ := consume_ws (adv_rel r1 h2)
+          tm_simp [check_some r1 rule_COMMA h2, e3]
+          cases h3 : chk (.req .identifier) (Req.ws m2) with
+          | none => tm_simp [expect_none r3 rule_IDENTIFIER h3]
+          | some u =>
+            obtain ⟨t, m3⟩ := u
+            tm_simp [expect_some r3 rule_IDENTIFIER h3, strs, strs_append]
+            exact ⟨_, _, rfl, adv_rel r3 h3⟩
+
+
+theorem pel_any (f F : Nat) (m : Mk.St) (h : Req.parseExtrasList f m ≠ .error .fuel) (hF : m.rest.length < F) :
+    Req.parseExtrasList F m = Req.parseExtrasList f m := by
+  simp only [Req.parseExtrasList] at h ⊢
+  cases h0 : Req.checkR .identifier m with
+  | none => rfl
+  | some v =>
+    obtain ⟨t, m1⟩ := v
+    simp only [h0] at h ⊢
+    rw [chk_req] at h0
+    have := chk_len h0
+    exact el_any f F _ m1 h (by omega)
+
+theorem extras_list_entry (s : PyTok.St) :
+    Gen.PySrc._parse_extras_list.run s = (Gen.PySrc._parse_extras_list__fuel (4 * s.rest.length + 15 + 1)).run s := by
+  simp only [Gen.PySrc._parse_extras_list, run_bind, run_get, ok_bind, fuelOf_succ]
+
+/-- `_parse_extras_list` against the model at *any* fuel -/
+theorem extras_list_any (s : PyTok.St) (m : Mk.St) (h : TokRel s m) (f : Nat) :
+    AgreesR strs Gen.PySrc._parse_extras_list s (Req.parseExtrasList f m) := by
+  refine agreesR_congr (extras_list_entry s) ?_
+  by_cases hv : Req.parseExtrasList f m = .error .fuel
+  · rw [hv]; exact agreesR_fuel _ _ _
+  · rw [← pel_any f (4 * s.rest.length + 15 + 1) m hv (by rw [h.2.1]; omega)]
+    exact extras_list_fuel _ s m h _ (Nat.le_refl _)
+
+/-- `_parse_extras` against the model at *any* fuel -/
+theorem extras_any (s : PyTok.St) (m : Mk.St) (h : TokRel s m) (f : Nat) :
+    AgreesR strs Gen.PySrc._parse_extras s (Req.parseExtras f m) := by
+  rw [agreesR_run]
+  simp only [Gen.PySrc._parse_extras, Req.parseExtras, chk_req]
+  tm_simp [check_peek h rule_LBRACKET]
+  cases h0 : chk (.req .lbracket) m with
+  | none =>
+    tm_simp [Option.isSome_none]
+    exact agreesRun_ok (a := []) h
+  | some v =>
+    obtain ⟨t0, m0⟩ := v
+    obtain ⟨s1, e1, r1⟩ := consume_ws (adv_rel h h0)
+    tm_simp [Option.isSome_some, open_some h rule_LBRACKET h0, e1]
+    refine agreesRun_bind ((agreesR_run _ _ _ _).1 (extras_list_any s1 _ r1 f)) ?_
+    intro a m2 s2 r2
+    obtain ⟨s3, e3, r3⟩ := consume_ws r2
+    tm_simp [e3]
+    cases h4 : chk (.req .rbracket) (Req.ws m2) with
+    | none =>
+      tm_simp [close_none _ r3 rule_RBRACKET h4]
+      exact agreesRun_err _ _
+    | some w =>
+      obtain ⟨t4, m4⟩ := w
+      tm_simp [close_some _ r3 rule_RBRACKET h4]
+      exact agreesRun_ok (adv_rel r3 h4)
+
 end ReqP
 
 theorem _parse_version_many_translated : Gen.PySrc._parse_version_many_supported = true := rfl
